@@ -98,22 +98,77 @@ def check_candset_mask(ctx):
                   nontrivial=False)
 
 
+def _row_source(repo, f, view, it, st, t, j, rn):
+    """the iterable the dictionary is built from yields every row of table.itertuples(index=False) except,
+    under remove_null, those whose join value is missing -> (ok, row variable conditions handled)"""
+    x = view.expand(it, st, inline=False)
+    if U(x) == '%s.itertuples(index=False)' % t:
+        return 'direct'
+    if isinstance(x, ast.Call):
+        r = repo._resolve(f, x, repo.local_types(f))
+        if r is not None:
+            callee = r[0]
+            from ..model import bind
+            b = bind(callee, r[1], x.args, x.keywords)
+            inv = {U(v): k for k, v in b.items()}
+            tp, jp, rp = inv.get(t), inv.get(j), inv.get(rn)
+            loops = [n for n in walk_own(callee.node) if isinstance(n, ast.For)]
+            ys = [n for n in ast.walk(callee.node) if isinstance(n, ast.Yield)]
+            if tp and jp and rp and len(loops) == 1 and len(ys) == 1 and U(loops[0].iter) == '%s.itertuples(index=False)' % tp \
+                    and isinstance(loops[0].target, ast.Name) and U(ys[0].value) == loops[0].target.id:
+                row = loops[0].target.id
+                cv = view_of(callee)
+                yst = cv.stmt_of(ys[0])
+                c = Conds(callee.node, None).of(yst)
+                ref = to_formula(parse_expr('not (%s and pd.isnull(%s[%s]))' % (rp, row, jp)))
+                if Universe().equivalent(c, ref) is None:
+                    return 'generator'
+    return None
+
+
 def check_build_dict(ctx):
     repo = ctx.repo
     f = repo.fn(GENERIC, 'build_dict_from_table')
     view = view_of(f)
     t, k, j, rn = f.params[:4]
     loops = [n for n in walk_own(f.node) if isinstance(n, ast.For)]
-    ok = len(loops) == 1 and U(loops[0].iter) == '%s.itertuples(index=False)' % t
-    stores = [n for n in walk_own(f.node) if isinstance(n, ast.Assign) and isinstance(n.targets[0], ast.Subscript)]
-    rows = loops[0].target.id if ok else None
-    ok = ok and len(stores) == 1 and U(stores[0].targets[0].slice) == '%s[%s]' % (rows, k) and U(stores[0].value) in ('tuple(%s)' % rows, rows)
-    if ok:
-        c = Conds(f.node, None).of(stores[0])
-        ref = to_formula(parse_expr('not (%s and pd.isnull(%s[%s]))' % (rn, rows, j)))
-        ok = Universe().equivalent(c, ref) is None
-    rets = [n for n in walk_own(f.node) if isinstance(n, ast.Return)]
-    ok = ok and len(rets) == 1 and U(rets[0].value) == U(stores[0].targets[0].value)
+    comps = [n for n in ast.walk(f.node) if isinstance(n, ast.DictComp)]
+    ok = False
+    if len(loops) == 1 and not comps:
+        lp = loops[0]
+        src = _row_source(repo, f, view, lp.iter, lp, t, j, rn)
+        stores = [n for n in walk_own(f.node) if isinstance(n, ast.Assign) and isinstance(n.targets[0], ast.Subscript)]
+        rows = lp.target.id if isinstance(lp.target, ast.Name) else None
+        ok = src is not None and rows is not None and len(stores) == 1 \
+            and U(stores[0].targets[0].slice) == '%s[%s]' % (rows, k) and U(stores[0].value) in ('tuple(%s)' % rows, rows)
+        if ok:
+            c = Conds(f.node, None).of(stores[0])
+            if src == 'direct':
+                ref = to_formula(parse_expr('not (%s and pd.isnull(%s[%s]))' % (rn, rows, j)))
+                ok = Universe().equivalent(c, ref) is None
+            else:
+                from ..guards import TRUE
+                ok = Universe().equivalent(c, TRUE) is None
+        rets = [n for n in walk_own(f.node) if isinstance(n, ast.Return)]
+        ok = ok and len(rets) == 1 and U(rets[0].value) == U(stores[0].targets[0].value)
+    elif len(comps) == 1 and not loops:
+        c0 = comps[0]
+        g = c0.generators[0]
+        st = view.stmt_of(c0)
+        rows = g.target.id if isinstance(g.target, ast.Name) else None
+        src = _row_source(repo, f, view, g.iter, st, t, j, rn)
+        ok = len(c0.generators) == 1 and rows is not None and src is not None \
+            and U(c0.key) == '%s[%s]' % (rows, k) and U(c0.value) in ('tuple(%s)' % rows, rows)
+        if ok and src == 'direct':
+            ifs = g.ifs
+            cond = to_formula(ast.BoolOp(op=ast.And(), values=list(ifs))) if len(ifs) > 1 else (to_formula(ifs[0]) if ifs else None)
+            ref = to_formula(parse_expr('not (%s and pd.isnull(%s[%s]))' % (rn, rows, j)))
+            ok = cond is not None and Universe().equivalent(cond, ref) is None
+        elif ok:
+            ok = not g.ifs
+        rets = [n for n in walk_own(f.node) if isinstance(n, ast.Return)]
+        ok = ok and len(rets) == 1 and (rets[0].value is c0 or (isinstance(rets[0].value, ast.Name) and any(
+            d.value is c0 for d in view.reaching(rets[0].value.id, rets[0]))))
     ctx.check('R-MASK/dict', f, 'mapping', ok,
               'build_dict_from_table must map row[key index] -> row for every row, skipping only missing join values under '
               'remove_null', f.node, sample='d[row[key_attr_index]] = tuple(row)')
